@@ -134,7 +134,10 @@ def run(ck, F):
                     makers.add(g['id'])
     for c in F.constructs.values():
         if 'Composite<ipr::Qualified>' in c.get('cls', '') and not c.get('copy'):
-            makers.add(c['fn'])
+            # who asks the standard library to construct one: the callers of this construct_at instantiation
+            callers = {g['id'] for g in F.fn.values() for n in walk(g.get('body'))
+                       if n.get('k') == 'call' and (n.get('callee') or {}).get('id', '').startswith(c['fn'] + '(')}
+            makers.update(callers or {c['fn']})
     QTAB = F.role_field('ipr::impl::type_factory', lambda fl: 'rb_tree::container<' in fl['t'] and 'ipr::Qualified' in fl['t'], 'table of qualified types')
     tab_users = {g['id'] for g in F.fn.values() for n in walk(g.get('body'))
                  if n.get('k') == 'member' and n.get('name') == QTAB and n.get('cls') == 'ipr::impl::type_factory'}
